@@ -1499,41 +1499,43 @@ Qed.
 
 (* transient failures of the node client leave no trace in the index: the life writes exactly what the same life
    writes over a node that always answers *)
-Theorem rpc_failures_invisible : forall c earliest d L, tolerable L -> sl_startfail L = false ->
-  run_slife c earliest d L = run_incarnation c earliest d (sl_inc L).
+Theorem rpc_failures_invisible : forall c d L, tolerable L -> sl_startfail L = false ->
+  run_slife c d L = run_incarnation c (sl_earliest L) d (sl_inc L).
 Proof.
-  intros c earliest d L Ht Hs. unfold run_slife, run_incarnation. rewrite Hs.
+  intros c d L Ht Hs. unfold run_slife, run_incarnation. rewrite Hs.
   apply svc_run_noskip. intros i Hi. apply skips_tolerated.
   destruct (Z_lt_ge_dec (i_start (sl_inc L)) i) as [Hlt|Hge]; [left; exact Hlt|right; apply Ht; lia].
 Qed.
 
 (* ... in particular failures of the live loop alone (heights above the node height at start), however many *)
-Corollary live_loop_failures_invisible : forall c earliest d L,
+Corollary live_loop_failures_invisible : forall c d L,
   (forall h, h <= i_start (sl_inc L) -> failures (sl_plan L) h = 0%nat) -> sl_startfail L = false ->
-  run_slife c earliest d L = run_incarnation c earliest d (sl_inc L).
+  run_slife c d L = run_incarnation c (sl_earliest L) d (sl_inc L).
 Proof.
-  intros c earliest d L H Hs. apply rpc_failures_invisible; [|exact Hs].
+  intros c d L H Hs. apply rpc_failures_invisible; [|exact Hs].
   intros h Hh. rewrite (H h Hh). unfold startup_failure_threshold. lia.
 Qed.
 
-Lemma slife_inv : forall c earliest s0 l reached,
-  earliest <= 1 -> 0 <= s0 -> s0 <= reached -> reached <= Z.of_nat (length c) ->
+Lemma slife_inv : forall c s0 l reached,
+  (forall L, In L l -> sl_earliest L <= 1) -> 0 <= s0 -> s0 <= reached -> reached <= Z.of_nat (length c) ->
   (forall L, In L l -> tolerable L) ->
-  ssched_ok c earliest (index_range c [] s0 reached) reached l = true ->
+  ssched_ok c (index_range c [] s0 reached) reached l = true ->
   exists reached', reached <= reached' <= Z.of_nat (length c) /\
-    fold_left (run_slife c earliest) l (index_range c [] s0 reached) = index_range c [] s0 reached' /\
+    fold_left (run_slife c) l (index_range c [] s0 reached) = index_range c [] s0 reached' /\
     (forall L, In L l -> sl_startfail L = false -> Z.of_nat (length c) <= Z.of_nat (i_kill (sl_inc L)) ->
                i_end (sl_inc L) = Z.of_nat (length c) -> reached' = Z.of_nat (length c)).
 Proof.
-  intros c earliest s0 l. induction l as [|L l IH]; intros reached He H0 Hr Hn Htol Hok.
+  intros c s0 l. induction l as [|L l IH]; intros reached Hea H0 Hr Hn Htol Hok.
   - exists reached. split; [lia|]. split; [reflexivity|intros L []].
-  - cbn [ssched_ok] in Hok. apply andb_true_iff in Hok as [Hend Hok]. apply Z.leb_le in Hend.
+  - assert (He : sl_earliest L <= 1) by (apply Hea; left; reflexivity).
+    assert (Hea' : forall L', In L' l -> sl_earliest L' <= 1) by (intros L' HL'; apply Hea; right; exact HL').
+    cbn [ssched_ok] in Hok. apply andb_true_iff in Hok as [Hend Hok]. apply Z.leb_le in Hend.
     assert (HtolL : tolerable L) by (apply Htol; left; reflexivity).
     assert (Htol' : forall L', In L' l -> tolerable L') by (intros L' HL'; apply Htol; right; exact HL').
     cbn [fold_left]. destruct (sl_startfail L) eqn:Esf.
     + (* the life failed to start: nothing read, nothing written *)
       unfold run_slife at 2. rewrite Esf.
-      destruct (IH reached He H0 Hr Hn Htol' Hok) as [r2 [Hb2 [Heq2 Hfin]]].
+      destruct (IH reached Hea' H0 Hr Hn Htol' Hok) as [r2 [Hb2 [Heq2 Hfin]]].
       exists r2. split; [lia|]. split; [exact Heq2|].
       intros x [<-|Hx] Hsf Hk Hxe; [congruence|eapply Hfin; eauto].
     + apply andb_true_iff in Hok as [Hok1 Hrest].
@@ -1541,41 +1543,41 @@ Proof.
       { apply orb_true_iff in Hok1 as [H|H].
         - left. apply negb_true_iff, Z.eqb_neq in H. exact H.
         - right. apply Z.eqb_eq in H. exact H. }
-      rewrite (rpc_failures_invisible c earliest _ L HtolL Esf) in *.
-      pose proof (incarnation_inv c earliest s0 reached (sl_inc L) He H0 Hr Hn Hcond Hend) as Hinv. cbn zeta in Hinv.
-      set (r1 := step_reached earliest (index_range c [] s0 reached) reached (sl_inc L)) in *.
+      rewrite (rpc_failures_invisible c _ L HtolL Esf) in *.
+      pose proof (incarnation_inv c (sl_earliest L) s0 reached (sl_inc L) He H0 Hr Hn Hcond Hend) as Hinv. cbn zeta in Hinv.
+      set (r1 := step_reached (sl_earliest L) (index_range c [] s0 reached) reached (sl_inc L)) in *.
       destruct Hinv as [Heq [Hb Hcur0]]. rewrite Heq in *.
       assert (Hr1a : s0 <= r1) by lia. assert (Hr1b : r1 <= Z.of_nat (length c)) by lia.
-      destruct (IH r1 He H0 Hr1a Hr1b Htol' Hrest) as [r2 [Hb2 [Heq2 Hfin]]].
+      destruct (IH r1 Hea' H0 Hr1a Hr1b Htol' Hrest) as [r2 [Hb2 [Heq2 Hfin]]].
       exists r2. split; [lia|]. split; [exact Heq2|].
       intros x [<-|Hx] Hsf Hk Hxe; [|eapply Hfin; eauto].
       assert (r1 = Z.of_nat (length c)); [|lia].
       unfold r1, step_reached in *.
-      set (cur := resume (index_range c [] s0 reached) (i_start (sl_inc L)) earliest) in *.
+      set (cur := resume (index_range c [] s0 reached) (i_start (sl_inc L)) (sl_earliest L)) in *.
       destruct (Z_le_gt_dec cur (Z.of_nat (length c))); lia.
 Qed.
 
-Theorem crash_converges_rpc : forall c earliest s0 l fin,
-  earliest <= 1 -> 0 <= s0 -> s0 <= Z.of_nat (length c) ->
+Theorem crash_converges_rpc : forall c s0 l fin,
+  (forall L, In L (l ++ [fin]) -> sl_earliest L <= 1) -> 0 <= s0 -> s0 <= Z.of_nat (length c) ->
   (forall L, In L (l ++ [fin]) -> tolerable L) ->
-  ssched_ok c earliest [] s0 (l ++ [fin]) = true ->
+  ssched_ok c [] s0 (l ++ [fin]) = true ->
   sl_startfail fin = false ->
   i_end (sl_inc fin) = Z.of_nat (length c) -> Z.of_nat (length c) <= Z.of_nat (i_kill (sl_inc fin)) ->
-  slife_run c earliest (l ++ [fin]) = run_from c s0.
+  slife_run c (l ++ [fin]) = run_from c s0.
 Proof.
-  intros c earliest s0 l fin He H0 Hn Htol Hok Hsf Hend Hk.
+  intros c s0 l fin He H0 Hn Htol Hok Hsf Hend Hk.
   unfold slife_run. rewrite <- (index_range_nop c [] s0 s0) by lia.
   rewrite <- (index_range_nop c [] s0 s0) in Hok by lia.
-  destruct (slife_inv c earliest s0 (l ++ [fin]) s0 He H0 ltac:(lia) Hn Htol Hok) as [r [Hb [Heq Hfin]]].
+  destruct (slife_inv c s0 (l ++ [fin]) s0 He H0 ltac:(lia) Hn Htol Hok) as [r [Hb [Heq Hfin]]].
   rewrite Heq. unfold run_from. f_equal. eapply Hfin; eauto. apply in_or_app. right. left. reflexivity.
 Qed.
 
 (* the old statement is the special case "the node always answers" *)
-Definition quiet_life (i : incarnation) : slife := SL i false [].
+Definition quiet_life (earliest : Z) (i : incarnation) : slife := SL i earliest false [].
 
-Lemma quiet_life_run : forall c earliest d i, run_slife c earliest d (quiet_life i) = run_incarnation c earliest d i.
+Lemma quiet_life_run : forall c earliest d i, run_slife c d (quiet_life earliest i) = run_incarnation c earliest d i.
 Proof.
-  intros. apply rpc_failures_invisible; [|reflexivity].
+  intros. apply (rpc_failures_invisible c d (quiet_life earliest i)); [|reflexivity].
   intros h _. unfold failures, plan_at. cbn. unfold startup_failure_threshold. lia.
 Qed.
 
@@ -1608,13 +1610,13 @@ Qed.
 (* the full statement - no bound on the failures during catch-up - is FALSE of the faithful model: the 11th failed fetch of
    a height while the indexer is not yet ready moves the cursor past it, the next block with an Ethereum transaction moves
    the resume point past it, and no later restart returns to it *)
-Definition crash_converges_rpc_full : Prop := forall c earliest s0 l fin,
+Definition crash_converges_rpc_full : Prop := forall c s0 l fin,
   wf_chain c = true -> NoDup (chain_hashes c) ->
-  earliest <= 1 -> 0 <= s0 -> s0 <= Z.of_nat (length c) ->
-  ssched_ok c earliest [] s0 (l ++ [fin]) = true ->
+  (forall L, In L (l ++ [fin]) -> sl_earliest L <= 1) -> 0 <= s0 -> s0 <= Z.of_nat (length c) ->
+  ssched_ok c [] s0 (l ++ [fin]) = true ->
   sl_startfail fin = false ->
   i_end (sl_inc fin) = Z.of_nat (length c) -> Z.of_nat (length c) <= Z.of_nat (i_kill (sl_inc fin)) ->
-  db_equiv (slife_run c earliest (l ++ [fin])) (run_from c s0).
+  db_equiv (slife_run c (l ++ [fin])) (run_from c s0).
 
 Definition wit_tx_at (hash height : Z) : txv :=
   Tx true true true hash 21000 9 true [EvEth true; EvRc (Rc 0 height false 1 21000 21000 None 0 false)].
@@ -1627,8 +1629,10 @@ Proof.
   intros Hf.
   assert (Hnd : NoDup (chain_hashes wit_chain3)).
   { apply nodupb_sound. vm_compute. reflexivity. }
-  specialize (Hf wit_chain3 1 0 [SL (Inc 0 1 9) false []] (SL (Inc 3 3 9) false wit_plan) eq_refl Hnd
-                 ltac:(lia) ltac:(lia) ltac:(cbn; lia) eq_refl eq_refl eq_refl ltac:(cbn; lia)).
+  assert (He : forall L, In L ([SL (Inc 0 1 9) 1 false []] ++ [SL (Inc 3 3 9) 1 false wit_plan]) -> sl_earliest L <= 1).
+  { intros L [<-|[<-|[]]]; cbn; lia. }
+  specialize (Hf wit_chain3 0 [SL (Inc 0 1 9) 1 false []] (SL (Inc 3 3 9) 1 false wit_plan) eq_refl Hnd
+                 He ltac:(lia) ltac:(cbn; lia) eq_refl eq_refl eq_refl ltac:(cbn; lia)).
   specialize (Hf (KHash 8)). vm_compute in Hf. discriminate.
 Qed.
 
@@ -1643,19 +1647,40 @@ Proof.
 Qed.
 
 Theorem slife_sub : forall c, wf_chain c = true -> NoDup (chain_hashes c) ->
-  forall earliest l, sub (slife_run c earliest l) (run c).
+  forall l, sub (slife_run c l) (run c).
 Proof.
-  intros c Hw Hnd earliest l. unfold slife_run.
-  assert (G : forall d, sub d (run c) -> sub (fold_left (run_slife c earliest) l d) (run c)).
+  intros c Hw Hnd l. unfold slife_run.
+  assert (G : forall d, sub d (run c) -> sub (fold_left (run_slife c) l d) (run c)).
   { induction l as [|L l IH]; intros d S; [exact S|]. cbn [fold_left]. apply IH.
     unfold run_slife. destruct (sl_startfail L); [exact S|]. apply svc_run_sub; assumption. }
   apply G. intros k v H. discriminate.
 Qed.
 
 Theorem any_rpc_history_answers_are_real : forall c, wf_chain c = true -> NoDup (chain_hashes c) ->
-  forall earliest l h r, get_by_hash (slife_run c earliest l) h = Some r -> get_by_hash (run c) h = Some r.
+  forall l h r, get_by_hash (slife_run c l) h = Some r -> get_by_hash (run c) h = Some r.
 Proof.
-  intros c Hw Hnd earliest l h r H. unfold get_by_hash in *.
-  destruct (db_get (KHash h) (slife_run c earliest l)) as [[x|x]|] eqn:E; try discriminate.
-  inversion H; subst. rewrite (slife_sub c Hw Hnd earliest l _ _ E). reflexivity.
+  intros c Hw Hnd l h r H. unfold get_by_hash in *.
+  destruct (db_get (KHash h) (slife_run c l)) as [[x|x]|] eqn:E; try discriminate.
+  inversion H; subst. rewrite (slife_sub c Hw Hnd l _ _ E). reflexivity.
+Qed.
+
+(* ================================================================== restart on a node that has pruned *)
+(* the node pruned past the last indexed block while the indexer was down: the life (not killed, tolerating its node)
+   indexes every block the node still serves, its earliest one included *)
+Theorem pruned_restart_indexes_from_earliest : forall c d L H b k v,
+  let i := sl_inc L in
+  sl_startfail L = false -> tolerable L ->
+  last_indexed d <> -1 -> last_indexed d < sl_earliest L -> 1 <= sl_earliest L ->
+  (Z.to_nat (i_end i - (sl_earliest L - 1)) <= i_kill i)%nat ->
+  sl_earliest L <= H <= i_end i -> block_at c H = Some b -> In (k, v) (index_block H b) ->
+  db_get k (run_slife c d L) <> None.
+Proof.
+  intros c d L H b k v i Hsf Htol Hne Hlt He Hkill HH Hb Hin. unfold run_slife. rewrite Hsf. fold i.
+  assert (Hcur : resume d (i_start i) (sl_earliest L) = sl_earliest L - 1).
+  { unfold resume. destruct (last_indexed d =? -1) eqn:E1; [apply Z.eqb_eq in E1; contradiction|].
+    destruct (last_indexed d <? sl_earliest L) eqn:E2; [reflexivity|apply Z.ltb_ge in E2; lia]. }
+  rewrite Hcur.
+  apply (no_height_skipped c (i_start i) (sl_plan L) _ d (sl_earliest L - 1) (i_kill i) H b k v); try assumption; try lia.
+  intros j Hj. apply skips_tolerated.
+  destruct (Z_lt_ge_dec (i_start i) j) as [Hl|Hg]; [left; exact Hl|right; apply Htol; unfold i in Hg; lia].
 Qed.
